@@ -917,6 +917,16 @@ def tasks_colourings(thorough):
     return out
 
 
+def _is_heavy(t):
+    a = t['args']
+    f = t['fam']
+    return ((f == 'ptn' and (a['N'] >= 1000 or (a['semantic'] and a['N'] >= 19))) or
+            (f == 'ramsey' and a['N'] >= 7) or
+            (f == 'vdw' and a['semantic'] and a['N'] * (1 if len(a['K']) == 2 else len(a['K'])) >= 15) or
+            (f == 'ordering' and a['n'] >= 7) or
+            (f == 'cpls' and a['a'] * a['b'] * a['c'] >= 48))
+
+
 def _run_task(t):
     return EVAL[t['fam']](**t['args'])
 
@@ -931,12 +941,22 @@ def run_tasks(ctx, tasks):
         tasks = [t for t in tasks if only in t['section']]
     if not tasks:
         return
-    # heavy tasks first would be better for balance, but order must stay deterministic: fixed chunks
     nproc = min(16, multiprocessing.cpu_count() or 1)
     if nproc > 1 and len(tasks) > 50:
+        # the few heavy tasks go one by one to the workers first, the many small ones follow in chunks;
+        # results are put back in task order, so the outcome does not depend on the scheduling
+        heavy = [i for i, t in enumerate(tasks) if _is_heavy(t)]
+        light = [i for i, t in enumerate(tasks) if not _is_heavy(t)]
         mp = multiprocessing.get_context('spawn')
         with mp.Pool(nproc) as pool:
-            results = pool.map(_run_task, tasks, chunksize=max(1, min(64, len(tasks) // (nproc * 8))))
+            rh = pool.map_async(_run_task, [tasks[i] for i in heavy], chunksize=1)
+            rl = pool.map_async(_run_task, [tasks[i] for i in light],
+                                chunksize=max(1, min(32, len(light) // (nproc * 16))))
+            results = [None] * len(tasks)
+            for i, r in zip(heavy, rh.get()):
+                results[i] = r
+            for i, r in zip(light, rl.get()):
+                results[i] = r
     else:
         results = [_run_task(t) for t in tasks]
     counts = Counter()
